@@ -179,8 +179,9 @@ def find_rows(matrix, row):
     c2 = len(row)
     if c1 != c2:
         return np.array([], dtype=int)
-    # return np.nonzero(abs(matrix - row).sum(axis=1) == 0)[0]
-    return abs(matrix - row).sum(axis=1) == 0
+    # (comparing instead of summing abs(matrix - row): differences of
+    # unsigned values wrap around)
+    return (np.asarray(matrix) == np.asarray(row)).all(axis=1)
 
 
 def _bytes_view(arr, dtype):
